@@ -62,6 +62,25 @@ PROPS = {
         'trusted': ["H-CLOCK; time shifting = moving stored timestamps back and fast-forwarding the store (observationally a clock advance)"],
         'assumptions': ["H-CLOCK", "H-AEAD"],
     },
+    'C12': {
+        'proofs': ['Ww.Proofs.C12'],
+        'gen_sections': [],
+        'drivers': [{'name': 'c12'}],
+        'reasons': ['C12.'],
+        'class_fields': {'glob': ['dm'], 'needslogin': ['nl'], 'alog': ['method', 'nav', 'authed', 'status', 'fwd', 'hasloc', 'prefix']},
+        'nontrivial': {},
+        'rule': "c12 driver: (a) doublestar.Match vs the Lean matcher on generated (pattern, path) pairs over {literal,*,**,/}; (b) autologin.NeedsLogin on generated pattern sets and raw paths "
+                "(dot segments, doubled/trailing slashes); (c) full handler through the router (method x Sec-Fetch/Accept x Referer x prefix x encoded separators). "
+                "distinct = (line kind, outcome fields); every case is non-trivial (a decision is made).",
+        'level_text': "Proof: the executable glob matcher is proved equal to the declarative documented semantics (`*` within a segment, `**` spanning segments) for ALL patterns and paths; "
+                      "NeedsLogin = false for an unauthenticated request iff some pattern Matches the path.Clean-ed path, which never contains a dot segment; the handler forwards an unauthenticated "
+                      "request only if ignored. doublestar itself and the handler wiring are tied by differential runs (incl. the real router) and the Spec is evaluated on every implementation answer.",
+        'level_note': "Trusted: Lean kernel; doublestar modelled for the alphabet {literal,*,**,/} and for pattern tails it compares literally at end-of-name (see DESIGN Appendix C: ***, x*/**, trailing slash are outside the contract and skipped); "
+                      "net/url path decoding; chi routing (C15).",
+        'technique': 'Lean 4 proof (matcher = inductive relation, by induction on patterns) + differential runs against doublestar / NeedsLogin / router',
+        'trusted': ["doublestar v4.8.1 modelled (not verified) for the pattern alphabet; path.Clean modelled on segment lists"],
+        'assumptions': ["patterns over {literal, *, **, /}"],
+    },
     'C08': {
         'proofs': ['Ww.Proofs.C08'],
         'gen_sections': ['Meta', 'Consts', 'pkg/session/data.go'],
